@@ -57,19 +57,18 @@ theorem loopC : ∀ (fuel : Nat) (s : LState F), Inv s → DInv s →
         obtain ⟨dappF, _, hrootsF⟩ := monoD bodies fuel _ inv' dinv' hc hlab hnd
         -- the body of the root and what is known about it
         have hbody : ∃ b, rootBody bodies r = some b ∧ wfE b = true ∧ (noR b = true ∨ (tailR b = true ∧ dr = 0)) ∧
-            ContOK (layoutRoots bodies fuel (layoutRoot bodies r { s with pending := rest })) r.containing ∧
-            (r.patch = r.containing ∨ enFree b = true) := by
+            ContOK (layoutRoots bodies fuel (layoutRoot bodies r { s with pending := rest })) r.containing := by
           cases hk : r.kind with
           | code b =>
             obtain ⟨h1, h2, h3, _⟩ := hrT.2.1 b hk
-            exact ⟨b, by simp [rootBody, hk], h1.1, h2, h3, .inr h1.2⟩
+            exact ⟨b, by simp [rootBody, hk], h1, h2, h3⟩
           | ref id =>
             obtain ⟨b, hb⟩ := hfound r hr_done id hk
             have hd0 := hrT.2.2 id hk
             have hc0 := (hrRef id hk).1
-            refine ⟨b, by simp [rootBody, hk, hb], (hprog id b hb).1, .inr ⟨(hprog id b hb).2, hd0⟩, ?_, .inl hc0.symm⟩
+            refine ⟨b, by simp [rootBody, hk, hb], (hprog id b hb).1, .inr ⟨(hprog id b hb).2, hd0⟩, ?_⟩
             rw [hc0]; rw [hd0] at hrD; exact hrD
-        obtain ⟨b, hb, hwfb, htlb, hcurb, hrootb⟩ := hbody
+        obtain ⟨b, hb, hwfb, htlb, hcurb⟩ := hbody
         obtain ⟨tb, htb, hlocb, _⟩ := hrLoc b hb
         have htbs : tb = s.instrs.size := by rw [toProg_jumps, hj] at htb; simpa using htb.symm
         subst htbs
@@ -121,7 +120,7 @@ theorem loopC : ∀ (fuel : Nat) (s : LState F), Inv s → DInv s →
               (emit r.patch r.containing b s1)
             rw [e1, e2] at hp'
             exact hp'
-        have hcs := emit_consts r.patch r.containing b s1 (by rw [s1_jsize]; exact inv.cont r hr_mem) hwfb hrootb
+        have hcs := emit_consts r.patch r.containing b s1 (by rw [s1_jsize]; exact inv.cont r hr_mem) hwfb
         have s1_consts : s1.consts = s.consts := by rw [← hs1]
         intro k j h1 h2
         by_cases hlt : k < (addTerms s1.instrs.size (emit r.patch r.containing b s1).instrs.back? r.term
